@@ -447,6 +447,9 @@ class Norm:
             if not n and self._normalised_or_identity(body, tb, a, [x[3] for x in res if x[0]], site_bb):
                 n = True
                 d += " (reaches the call only over an is_zero edge; normalised otherwise)"
+            if not n and self._none_arm_of_to_affine(body, tb, a, site_bb):
+                n = True
+                d += " (reaches the call only where its to_affine() answered None: the identity, its own normal form — R-AFFINE-NONE)"
             if not n or not z:
                 bp = self.base_param(body, a)
                 if bp is not None and self._guarded_z_one(body, tb, bp, site_bb):
@@ -513,6 +516,26 @@ class Norm:
                 if (x, y) not in cut:
                     todo.append(y)
         return True
+
+    def _none_arm_of_to_affine(self, body, tb, raw, site_bb):
+        """the call site is dominated by the None arm of a `match raw.to_affine()`: on that arm the point is the identity"""
+        raw = self._unwrap(body, self._through(body, strip(raw)))
+        for bi in sorted(body.reachable()):
+            term = body.blocks[bi]["term"]
+            if term["k"] != "switch":
+                continue
+            d = strip(tb.operand(term["discr"], bi, len(body.blocks[bi]["stmts"])))
+            if d[0] != "discr":
+                continue
+            c = strip(d[1])
+            if c[0] != "call" or c[1].name != "to_affine" or "groups::G" not in c[1].d or len(c[2]) != 1 or self._unwrap(body, strip(c[2][0])) != raw:
+                continue
+            tgt = next((tg for val, tg in term["arms"] if int(val) == 0), None)          # Option::None has discriminant 0
+            if tgt is None and not any(int(v) == 0 for v, _ in term["arms"]):
+                tgt = term["otherwise"]
+            if tgt is not None and body.pred()[tgt] == [bi] and body.dominates(tgt, site_bb):
+                return True
+        return False
 
     def base_param(self, body, t):
         """If the term designates (a z-preserving image of) an unchanged G-typed parameter of `body`, that parameter."""
